@@ -294,6 +294,19 @@ class OpMachine:
                 if before is not None:
                     after = float(self.exch().available_margin)
                     c.count('c03_roundtrips')
+                    # exact, except for one corner: when another resting plain order has the very same quantity and
+                    # price, the cancellation may take that twin's row out of the margin table instead of its own -
+                    # the table holds the same rows in another order and numpy's sum over it may differ in the last
+                    # bits (floating-point addition is not associative); only that much is tolerated, and only then
+                    reg = c.scratch.get('registry')
+                    twins = [r for r in (reg.active(op['sym']) if reg is not None else [])
+                             if r.order is not o and r.order.is_active and not r.reduce_only
+                             and abs(r.qty) == abs(float(o.qty)) and r.price == float(o.price) and r.side == o.side]
+                    if twins and after != before:
+                        scale = abs(before) + sum(abs(r.qty) * r.price for r in reg.active(op['sym']) if r.order.is_active and not r.reduce_only)
+                        if abs(after - before) <= 16 * 2.220446049250313e-16 * max(1.0, scale):
+                            c.count('c03_roundtrip_row_order_rounding_only')
+                            after = before
                     if after != before:
                         c.violate('C03', 'roundtrip', 'C03|submit-then-cancel-does-not-restore-available-margin',
                                   {'before': before, 'after': after, 'op': op})
